@@ -213,7 +213,7 @@ def check_path(jc, r, root, gid, snap, inp, replay, label_prefix, key):
 def replay_reorder(inp):
     """Concrete: apply the witness permutation with the real reorder_glyphs on a fresh zoo font
     and check sortedness/pairing on the real tables."""
-    font = ZOO.build_zoo()
+    font = ZOO.build_zoo(inp.get("variant"))
     names = ZOO.NAMES
     gids = {n: int(inp.get(f"gid_{n.replace('.', '')}", i)) for i, n in enumerate(names)}
     if sorted(gids.values()) != list(range(len(names))) or gids[".notdef"] != 0:
@@ -295,9 +295,10 @@ def job_whole_font(jc):
         [0] + [((i * 3) % (len(names) - 1)) + 1 for i in range(len(names) - 1)],
     ]
     inp = {f"gid_{n.replace('.', '')}": core.SymNum(z3.Int(f"gid_{n.replace('.', '')}")) for n in names}
+    inp["variant"] = jc.params.get("variant")
 
     def body():
-        f = ZOO.build_zoo()
+        f = ZOO.build_zoo(jc.params.get("variant"))
         k = core.choice(len(perms))
         gid = {n: core.integer(f"gid_{n.replace('.', '')}", 0, len(names) - 1) for n in names}
         for n, v in zip(names, perms[k]):
@@ -364,7 +365,15 @@ def jobs(tier):
     font = ZOO.build_zoo()
     js = [Job(f"focus[{name}]", job_focus, index=i) for i, (tag, name, st) in enumerate(focuses(font))]
     js.append(Job("whole_font", job_whole_font))
+    js.append(Job("whole_font[empty lookup first]", job_whole_font, variant="empty lookup first"))
     js.append(Job("static_crosscheck", job_static_crosscheck))
+    # the regrouping that triggers the reorder (svg._ensure_groups_grouped_in_glyph_order): the new glyph order and
+    # the glyph ids written into the documents must be one and the same numbering
+    from harness import C02
+
+    for sc in C02.SCENARIOS:
+        if sc.startswith("reuse across glyphs") or sc.startswith("three unrelated"):
+            js.append(Job(f"svg docs[{sc}]", C02.job_docs, scenario=sc, affine="translation"))
     return js
 
 
